@@ -19,6 +19,8 @@
  * y = 45 * 2^3 resp. 45 * 2 and |k| < 2^44), the IEEE remainder r = x - k*y is exactly
  * representable, so  fl(x - (double)k * y) == r  pins it, k being the integer nearest x/y with
  * ties to even.  Outside that domain only |r| <= y/2 and the NaN rules are given. */
+/* ghost: the integer quotient chosen by the last remainder/remquo evaluation (witness for "differs by a multiple of y") */
+extern long long vm_last_k;
 static inline double vm_remquo_core(double x, double y, long long *kout) {
   double r = nondet_double();
   long long k = nondet_longlong();
@@ -41,9 +43,10 @@ static inline double vm_remquo_core(double x, double y, long long *kout) {
   *kout = k;
   return r;
 }
-static inline double vm_remainder(double x, double y) { long long k; return vm_remquo_core(x, y, &k); }
+static inline double vm_remainder(double x, double y) { long long k; double r = vm_remquo_core(x, y, &k); vm_last_k = k; return r; }
 static inline double vm_remquo(double x, double y, int *q) {
   long long k; double r = vm_remquo_core(x, y, &k);
+  vm_last_k = k;
   *q = (int)(k % 8);   /* sign of x/y, magnitude congruent mod 8 to |k| (C99 7.12.10.3, glibc) */
   return r;
 }
@@ -70,9 +73,10 @@ static inline float vm_remquo_coref(float x, float y, long long *kout) {
   *kout = k;
   return r;
 }
-static inline float vm_remainderf(float x, float y) { long long k; return vm_remquo_coref(x, y, &k); }
+static inline float vm_remainderf(float x, float y) { long long k; float r = vm_remquo_coref(x, y, &k); vm_last_k = k; return r; }
 static inline float vm_remquof(float x, float y, int *q) {
   long long k; float r = vm_remquo_coref(x, y, &k);
+  vm_last_k = k;
   *q = (int)(k % 8);
   return r;
 }
